@@ -74,10 +74,10 @@ def run(tier, rep):
 
     for i in range(12 if quick else 120):
         data, items = gen_streams.mixed_stream(rnd, pool, rnd.randint(3, 14), well_formed=True, crlf_only=True)
-        seg = sockdouble.segmentation(rnd, len(data), rnd.choice(["small", "all", "random", "mixed"]))
+        seg = sockdouble.critical_segmentation(rnd, [it[1] for it in items]) if i % 2 else sockdouble.segmentation(rnd, len(data), rnd.choice(["small", "all", "random", "mixed"]))
         sock = sockdouble.ScriptedSocket(data, seg)
         try:
-            got_s = [(bytes(r), str(p)) for r, p in RTCMReader(sock, bufsize=rnd.choice([1, 7, 512, 4096]), quitonerror=0)]
+            got_s = [(bytes(r), str(p)) for r, p in RTCMReader(sock, bufsize=rnd.choice([7, 512, 4096, 4096]), quitonerror=0)]
         finally:
             sock.close()
         got_f = [(bytes(r), str(p)) for r, p in RTCMReader(io.BytesIO(data), quitonerror=0)]
